@@ -112,7 +112,10 @@ C18_GovExact == Step /\ Ok =>
   /\ E.act = "allow" => E.by = admin /\ allow' = [listed |-> TRUE, gas |-> E.args.gas]
   /\ E.act = "update_admin" => E.by = admin /\ admin' = E.args.new
 \* migrating a v1 contract hands governance to the old gov_contract and drops nothing
-C18_MigrateFromLegacy == Step /\ legacy /\ IsOk("migrate") => admin' = "gov" /\ ~legacy'
+C18_MigrateFromLegacy == Step /\ legacy /\ IsOk("migrate") =>
+  /\ ~legacy'
+  /\ IF admin = "legacy" THEN admin' = "gov"             \* v1: the old gov_contract becomes the admin
+     ELSE admin' = admin /\ allow' = allow               \* v2: governance state is already in today's layout
 C18_DefaultGasWriters == Step /\ defaultGas' # defaultGas => IsOk("migrate") /\ E.args.gas # -1 /\ defaultGas' = E.args.gas
 C18_TransferGate == Step /\ IsOk("transfer") /\ E.args.denom = "tok" => allow.listed \/ defaultGas # -1
 Payouts(o) == SelectSeq(o, LAMBDA m : m.k = "payout")
